@@ -143,7 +143,8 @@ def run(ctx):
 
     # ---- paired fits ----
     def learners(ml, seed):
-        from sklearn.linear_model import LinearRegression, LogisticRegression
+        from sklearn.ensemble import RandomForestClassifier, RandomForestRegressor
+        from sklearn.linear_model import LinearRegression, LogisticRegression, SGDClassifier
         from sklearn.naive_bayes import GaussianNB
         return [
             ("ParzenWindowClassifier", lambda: ParzenWindowClassifier(classes=[0, 1], metric_dict={"gamma": 0.7}, missing_label=ml, random_state=seed), "clf", True),
@@ -153,6 +154,13 @@ def run(ctx):
             ("SklearnRegressor[refusing]", lambda: SklearnRegressor(Refuse(), missing_label=ml, random_state=seed), "reg", False),
             ("SklearnNormalRegressor[refusing]", lambda: SklearnNormalRegressor(Refuse(), missing_label=ml, random_state=seed), "reg", False),
             ("NICKernelRegressor", lambda: NICKernelRegressor(metric_dict={"gamma": 0.7}, missing_label=ml, random_state=seed), "reg", True),
+            # estimators that would continue from their previous solution if the wrapper ever handed them the same object twice
+            ("SklearnClassifier[SGD,warm_start]", lambda: SklearnClassifier(SGDClassifier(loss="log_loss", warm_start=True, max_iter=30, tol=None, random_state=seed),
+                                                                            classes=[0, 1], missing_label=ml, random_state=seed), "clf", True),
+            ("SklearnClassifier[RandomForest,warm_start]", lambda: SklearnClassifier(RandomForestClassifier(n_estimators=4, warm_start=True, random_state=seed),
+                                                                                     classes=[0, 1], missing_label=ml, random_state=seed), "clf", True),
+            ("SklearnRegressor[RandomForest,warm_start]", lambda: SklearnRegressor(RandomForestRegressor(n_estimators=4, warm_start=True, random_state=seed),
+                                                                                   missing_label=ml, random_state=seed), "reg", True),
         ]
     M = 30 if ctx.is_quick else 300
     for h in range(M):
@@ -190,19 +198,20 @@ def run(ctx):
                                       what=f"{name}: {vname} changes the fitted model (missing_label={ml})")
                         break
                 # reveal order, re-using the caller's weight array across fits (a fit must not alter it)
-                if sw is not None and keep.sum() >= 2:
-                    shared = sw.copy()
+                if keep.sum() >= 2:
+                    shared = None if sw is None else sw.copy()
+                    skw = {} if sw is None else {"sample_weight": shared}
                     y1 = y.copy()
                     lbl_idx = np.flatnonzero(keep)
                     y1[lbl_idx[len(lbl_idx) // 2:]] = ml
                     m = mk()
-                    m.fit(X, y1, sample_weight=shared)
-                    m.fit(X, y, sample_weight=shared)
+                    m.fit(X, y1, **skw)                  # ONE object fitted twice: labels revealed in two steps
+                    m.fit(X, y, **skw)
                     got = predict_all(m, Xq, task)
-                    if not same(ref, got) or not np.array_equal(shared, sw):
+                    if not same(ref, got) or (sw is not None and not np.array_equal(shared, sw)):
                         ctx.violation(name, "reveal_order_matters", "fit(partial labels) then fit(all labels) with the same weight array differs from a single fit",
-                                      {"learner": name, "X": X.tolist(), "y": y.tolist(), "missing_label": ml, "sample_weight": sw.tolist(),
-                                       "weights_after": shared.tolist()},
+                                      {"learner": name, "X": X.tolist(), "y": y.tolist(), "missing_label": ml, "sample_weight": None if sw is None else sw.tolist(),
+                                       "weights_after": None if sw is None else shared.tolist()},
                                       what=f"{name}: revealing labels in a different order (caller's sample_weight re-used) changes the fitted model / the weights were altered")
             except Exception as e:
                 ctx.violation(name, "exception:" + err_class(e), repr(e)[:300], {"learner": name, "y": y.tolist(), "missing_label": ml},
